@@ -279,8 +279,22 @@ def run(ctx):
             t = gen.pick(rng, (gen.BOOL, gen.BOOL, gen.NUM))
             case = S.random_case(rng, t, maxdepth=rng.randrange(1, 5), bias='simplify' if n % 2 else 'plain',
                                  n_aliases=rng.choice((0, 1, 1, 2)))
+            if n % 3 == 0 and case.aliases:
+                # an alias of the same message type: replacing it by the current message makes references coincide
+                a0 = sorted(case.aliases)[0]
+                case.aliases[a0] = case.this
+                tg = gen.Typed(rng, this=case.this, aliases=case.aliases, maxdepth=rng.randrange(1, 4))
+                case.e = tg.prim(t, tg.maxdepth)
             if not A.renderable(case.e):
                 continue
+            if t == gen.BOOL and rng.random() < 0.5:
+                # a companion predicate over the same fields (for join and for sharing reference names)
+                tg2 = gen.Typed(rng, this=case.this, aliases=case.aliases, maxdepth=2)
+                comp = tg2.bool(2)
+                if A.renderable(comp):
+                    oc = hplapi.outcome(PC.parse, A.render_expr(comp))
+                    if oc[0] == 'ok' and not getattr(oc[1], 'is_vacuous', False):
+                        donors_pool.append(oc[1])
             abs_e = case.e
             text = A.render_expr(case.e)
             o = hplapi.outcome((PC if (k == 2 and t == gen.BOOL) else PE).parse, text)
